@@ -287,6 +287,15 @@ def check_cases(mod_name, fn_name, cases, extras=None, processes=16):
     return outs
 
 
+def full_labels(labels, case):
+    """Labels of a failure: the oracle's own plus the stratum and run-level facts of the case."""
+    labels = dict(labels or {})
+    labels.setdefault("label", corpus.label(case.desc))
+    # hypnotoad only warns when the spacing iteration of a FineContour does not converge
+    labels.setdefault("finecontour_not_converged", bool(case.status.get("finecontour_max_ds_error", 0.0) > 1e-8))
+    return labels
+
+
 def run_corpus_property(run, mod_name, fn_name, descs, timeout=None, shrinker=None):
     """Execute descs, apply the oracle, fill `run` (counts, histogram, failures)."""
     if timeout is None:
@@ -321,8 +330,7 @@ def run_corpus_property(run, mod_name, fn_name, descs, timeout=None, shrinker=No
             m = run.extra.setdefault("max_error_over_tolerance", {})
             m[k] = max(m.get(k, 0.0), float(v))
         for bucket, detail, labels in out.get("fails", []):
-            labels = dict(labels or {})
-            labels.setdefault("label", lab)
+            labels = full_labels(labels, c)
             if run.is_known(bucket, labels):
                 run.failure(bucket, detail, {"desc": c.desc}, labels)
                 continue
@@ -331,7 +339,8 @@ def run_corpus_property(run, mod_name, fn_name, descs, timeout=None, shrinker=No
             desc = c.desc
             if shrinker is not False:
                 budget = 32 if run.tier == "quick" else 160
-                desc, used = shrink(c.desc, bucket, mod_name, fn_name, budget=budget, log=print)
+                desc, used = shrink(c.desc, bucket, mod_name, fn_name, budget=budget, log=print,
+                                    is_known=lambda b, l_, case: run.is_known(b, full_labels(l_, case)))
                 run.extra["shrink_evaluations"] = run.extra.get("shrink_evaluations", 0) + used
                 if desc is not c.desc:
                     # re-evaluate to report the detail of the minimal case
@@ -354,7 +363,7 @@ def replay_corpus_property(run, mod_name, fn_name, payload):
         return
     for bucket, detail, labels in out.get("fails", []):
         if bucket == payload["bucket"]:
-            run.failure(bucket, detail, {"desc": desc}, labels)
+            run.failure(bucket, detail, {"desc": desc}, full_labels(labels, c))
 
 
 # ---------------------------------------------------------------------------------------
@@ -428,8 +437,11 @@ def simplifications(desc):
     return out
 
 
-def shrink(desc, bucket, mod_name, fn_name, budget=48, timeout=600, log=None):
-    """Minimise desc keeping `bucket` failing. Returns (minimal desc, evaluations)."""
+def shrink(desc, bucket, mod_name, fn_name, budget=48, timeout=600, log=None, is_known=None):
+    """Minimise desc keeping `bucket` failing. Returns (minimal desc, evaluations).
+
+    is_known(bucket, labels, case): candidates whose failure is a listed known finding are not
+    accepted (the minimal reproduction must still show the unlisted violation)."""
     used = 0
     current = desc
     while used < budget:
@@ -440,10 +452,10 @@ def shrink(desc, bucket, mod_name, fn_name, budget=48, timeout=600, log=None):
         outs = check_cases(mod_name, fn_name, cases)
         used += len(cands)
         better = None
-        for cand, out in zip(cands, outs):
+        for cand, case, out in zip(cands, cases, outs):
             if out is None:
                 continue
-            if any(b == bucket for b, _, _ in out.get("fails", [])):
+            if any(b == bucket and not (is_known and is_known(b, lab_, case)) for b, _, lab_ in out.get("fails", [])):
                 if better is None or _size(cand) < _size(better):
                     better = cand
         if better is None:
